@@ -210,8 +210,18 @@ extern int mpt_connection_dispatch(MPT_STRUCT(connection) *con, MPT_TYPE(event_h
 	}
 	/* discard existing message */
 	if (!cmd) {
+		uint8_t i;
+		data = (void *) (buf + 1);
 		buf->_used = 0;
-		mpt_outdata_reply(&con->out, hlen, buf + 1, 0);
+		/* default reply for requests only (id is not a reply and not zero), marked as reply */
+		for (i = 0; i < ilen && !(data[0] & 0x80); ++i) {
+			if (!data[i]) {
+				continue;
+			}
+			data[0] |= 0x80;
+			mpt_outdata_reply(&con->out, hlen, data, 0);
+			break;
+		}
 		return 0;
 	}
 	data = (void *) (buf + 1);
